@@ -44,6 +44,8 @@ def main():
                 json.dump(meta, open(mp, "w"), indent=1)
         finally:
             shutil.rmtree(tmp, ignore_errors=True)
+            for t in ("py2lean.py", "py2lean_eff.py"):
+                subprocess.run(["/venv/bin/python", os.path.join(VERIF, "tools", t)], capture_output=True)
 
 
 if __name__ == "__main__":
